@@ -204,6 +204,10 @@ def explore(ctx, scale=1.0):
             text = 'SYMBOLSET\n  SYMBOL\n    NAME "a"\n    TYPE ELLIPSE\n  END\nEND'
         else:
             b = gen.gen_block(rng, t, depth=0, max_items=2)
+            # the root clause is about the block type; the recorded keyword ambiguity (QUERYMAP STYLE NORMAL followed by another
+            # keyword, cell:querymap/style/*:normal) belongs to the cell enumeration above and is kept out of this document
+            if t == "querymap":
+                b.items = [it for it in b.items if not (it[0] == "attr" and it[1] == "style")]
             text = gen.render(b)
         ctx.case(("root", t), True); ctx.count("root")
         try:
